@@ -10,7 +10,9 @@ Streams
                     format_exceptions, `% try` wrapped around ancestors of the raising node): outcome, output
                     (followed by a Context.write), stack depths read from the real Context
                     (len(_buffer_stack), len(caller_stack), nextcaller) and the counter - real mako vs the Lean
-                    pipeline (codegen -> exec);
+                    pipeline (codegen -> exec); every crash point is run a second time raising an object outside
+                    `Exception` (user BaseException subclass, KeyboardInterrupt, GeneratorExit; `% except
+                    BaseException` in the source): cleanup must not depend on the class;
   corr.spec         the same runs vs the Lean `Spec.render` (output and outcome only; it has no stacks);
   oracle.behaviour / oracle.second_render
                     the same runs judged by the independent Python reference renderer (harness/ref_render.py:
@@ -53,7 +55,10 @@ RULE = ("template sets (1-3 templates, include edges) from the grammar of harnes
         "<%include>, loop.index, return/break/continue, plus fixed witnesses (nested <%call> in the argument list of "
         "a call with content); for each set every crash point 0..N (N = evaluation points of the crash-free render, "
         "capped at 30 quick / 80 thorough) x handlers {render_context caller, error_handler T/F, "
-        "include_error_handler T/F, format_exceptions, % try around ancestors of the raising node}; hand-written "
+        "include_error_handler T/F, format_exceptions, % try around ancestors of the raising node} x exception class "
+        "{Boom (an Exception); AbortRequest / KeyboardInterrupt / GeneratorExit (outside Exception) with every "
+        "`% except` of the template naming BaseException, handlers: caller, error_handler False, format_exceptions, "
+        "% try}; hand-written "
         "families for format_exceptions x entry point x inheritance/include/namespace, exception objects outside "
         "Exception, literal and escape-only sources; a case is non-trivial when the exception is raised inside at "
         "least one pushed buffer/frame/loop or a handler swallows it; distinct = distinct (template set, crash "
@@ -1022,14 +1027,14 @@ def knob_sets(ctx):
     """streams of generator settings (name, knobs, number of template sets quick/thorough)"""
     K = G.Knobs
     return [
-        ("mixed", K(), 45, 420),
+        ("mixed", K(), 45, 300),
         ("defs-and-calls", K(constructs={"text": 4, "expr": 6, "def": 5, "call": 5, "block": 2, "try": 2, "if": 1,
-                                         "texttag": 1, "ret": 0.3}, p_flag=0.5), 25, 220),
+                                         "texttag": 1, "ret": 0.3}, p_flag=0.5), 25, 160),
         ("loops", K(constructs={"text": 4, "expr": 6, "for": 5, "while": 2, "try": 3, "if": 2, "def": 2, "call": 2,
-                                "brk": 1, "cont": 0.6, "ret": 0.4, "block": 1}), 20, 180),
+                                "brk": 1, "cont": 0.6, "ret": 0.4, "block": 1}), 20, 130),
         ("includes", K(constructs={"text": 4, "expr": 5, "inc": 4, "def": 3, "call": 2, "try": 2, "for": 1,
-                                   "block": 1}, templates=(2, 3)), 15, 140),
-        ("deep", K(max_depth=6, budget=45, max_body=3), 10, 110),
+                                   "block": 1}, templates=(2, 3)), 15, 100),
+        ("deep", K(max_depth=6, budget=45, max_body=3), 10, 80),
     ]
 
 
